@@ -154,6 +154,17 @@ Theorem C10_oversized_request_refused :
            reserve_exact c n (v, u) = Panic p (v, u2) /\ same_user u u1 /\ same_user u u2.
 Proof. exact reserve_layout_panic. Qed.
 
+(** the same for `with_capacity(n)` (and every other path into `MemResizable::resize`): refused before anything is allocated, the half-built storage is dropped by the unwinding, the destination keeps what it held (`exec_withcap`) *)
+Theorem C10_oversized_capacity_refused :
+  forall (c : cfg) (v : vec) (u : uw) (n : N),
+         cfg_wf c ->
+         resizable_backend (vbk v) ->
+         c_sz c * vcap v <= alloc_limit ->
+         layout_limit c (vbk v) < c_sz c * n ->
+         let p := if usize_max <? c_sz c * n then POverflow else PLayout in
+         exists u1 : uw, mem_resize c n (v, u) = Panic p (v, u1) /\ same_user u u1.
+Proof. exact mem_resize_layout_panic. Qed.
+
 (* ---- end histories ---- *)
 Print Assumptions C10_reserve_noop.
 Print Assumptions C10_reserve_grows.
@@ -169,3 +180,4 @@ Print Assumptions C10_capacity_call_promise.
 Print Assumptions C10_history_cap_promises.
 Print Assumptions C10_history_cap_promises_example.
 Print Assumptions C10_oversized_request_refused.
+Print Assumptions C10_oversized_capacity_refused.
